@@ -122,6 +122,30 @@ class Proxy:
         return inner
 
 
+def tap(collider, log, budget, mode):
+    """record the support evaluations (and first_vertex calls) of a collider in `log` without hiding the collider: instance
+    attributes shadow the two methods on the object itself.  mode: "p" appends the support point, "dp" appends (direction, point),
+    "fs" appends ("f", first vertex) / ("s", support point)."""
+    orig_s, orig_f = collider.support_function, collider.first_vertex
+
+    def sf(d):
+        p = orig_s(d)
+        pt = np.array(p, dtype=float)
+        log.append(pt if mode == "p" else ((np.array(d, dtype=float), pt) if mode == "dp" else ("s", pt)))
+        if len(log) > budget:
+            raise SupportBudget()
+        return p
+
+    def fv():
+        p = orig_f()
+        if mode == "fs":
+            log.append(("f", np.array(p, dtype=float)))
+        return p
+    collider.support_function = sf
+    collider.first_vertex = fv
+    return collider
+
+
 _OBS = {"flat": 0, "rows": 4}
 
 
